@@ -72,8 +72,8 @@ flat_collider = nb.flat_collider
 
 def gen_cases(rng, tier):
     cases = []
-    n = dict(quick=dict(general=60, aspect=70, ident=30, nested=20, touch=60, flat=50, lattice=40),
-             thorough=dict(general=900, aspect=900, ident=300, nested=250, touch=700, flat=600, lattice=500))[tier]
+    n = dict(quick=dict(general=60, aspect=70, ident=30, nested=20, touch=60, flat=50, lattice=40, bigmesh=50),
+             thorough=dict(general=900, aspect=900, ident=300, nested=250, touch=700, flat=600, lattice=500, bigmesh=600))[tier]
     for _ in range(n["general"]):
         s1, s2, meta = nw.gen_pair(rng, tier)
         cases.append(dict(c1=s1, c2=s2, meta=meta))
@@ -125,6 +125,10 @@ def gen_cases(rng, tier):
     for i in range(n["lattice"]):
         s1, s2, meta = nw.gen_pair(rng, tier, stream="lattice", margin_prob=0.1)
         cases.append(dict(c1=s1, c2=s2, meta=meta))
+    for i in range(n["bigmesh"]):
+        r = nb.bigmesh_pair(rng)
+        if r is not None:
+            cases.append(dict(c1=r[0], c2=r[1], meta=r[2]))
     for c in cases:
         c["ops"] = ops_for(c["c1"], c["c2"], c.get("same_object", False))
     # small BVHs for self-collision detection
@@ -180,7 +184,8 @@ def run(tier, seed, replay=None):
         "primitive pairs, mpr_penetration, epa after gjk) plus small BVH scenes for self_collision.detect/detect_any. Streams: "
         "general D (random/lattice/moderate/wide/plane-gap), aspect ratios to 1e4 (needles, plates; as-is, touching, overlapping), "
         "identical (equal copy / the same Python object twice), nested, touching at gaps in {0,+-1e-12,+-1e-9,+-1e-6,+-1e-4}, "
-        "zero-volume (vertex, segment, triangle, planar hull, disk, ellipse), exact lattice placements. distinct by canonical "
+        "zero-volume (vertex, segment, triangle, planar hull, disk, ellipse), exact lattice placements, big meshes (radius 10..100) "
+        "with a small collider in front of a face (search direction = face normal: mesh hill climbing, F-M1). distinct by canonical "
         "hash; non-trivial = at least one entry point needed more than 2 loop passes (support evaluations > 4)")
     R.assumptions += [
         "support evaluations are counted by wrapping collider.support_function; the specialised Nesterov supports bypass it, there the returned iteration count is bounded instead (<= max_interations)",
@@ -207,7 +212,7 @@ def run(tier, seed, replay=None):
     cases, scenes = [], []
     corpus = cm.VERIF / "corpus" / PID
     if replay:
-        c = json.loads(open(replay).read())["case"]
+        c = nb.load_case(replay)
         if "scene" in c:
             scenes.append(dict(scene=c["scene"], meta=c.get("meta", {})))
         else:
@@ -218,7 +223,7 @@ def run(tier, seed, replay=None):
     else:
         if corpus.exists():
             for f in sorted(corpus.glob("*.json")):
-                c = json.loads(f.read_text())["case"]
+                c = nb.load_case(f)
                 if "scene" in c:
                     scenes.append(dict(scene=c["scene"], meta=c.get("meta", {})))
                     continue
@@ -229,6 +234,7 @@ def run(tier, seed, replay=None):
         g1, g2 = gen_cases(R.rng, tier)
         cases += g1
         scenes += g2
+    R.cov["jit_warmup"] = nb.warm(PID)
     results = nb.run_cases(PID, cases + scenes)
     R.cov["evaluations"] = len(cases) + len(scenes)
     hist = {}
